@@ -24,9 +24,9 @@ type Entry struct {
 	Form string // value | addr | lit | type | wrap | odd
 	Pkg  string // qualifier of the bound identifier ("" = bare identifier)
 	Name string // bound identifier (value, addr, type, wrap)
-	Tok  string // lit: INT | FLOAT | STRING
-	Val  string // lit: canonical value (INT decimal, FLOAT reduced "num/den", STRING hex of the bytes)
-	Raw  string // lit: the text handed to constant.MakeFromLiteral (not part of the rendering)
+	Tok  string // lit: INT | FLOAT | STRING | COMPLEX
+	Val  string // lit: canonical value (INT decimal, FLOAT reduced "num/den", STRING hex of the bytes, COMPLEX "TOK:re;TOK:im")
+	Raw  string // lit: the text handed to constant.MakeFromLiteral (COMPLEX: "TOK:text;TOK:text"; not part of the rendering)
 }
 
 func (e Entry) String() string {
